@@ -139,10 +139,13 @@ Section Calm.
     rewrite forallb_forall in H. now apply (nolink_G x (H x Hx)).
   Qed.
 
+  (* a wiki link is written `[[wiki_url url]]` and read back with one `.md` taken off *)
   Definition url_kept (url : string) : bool :=
-    if is_ref_url url then String.eqb (trim_end_matches MD url) url else true.
+    if is_ref_url url then is_ref_url (wiki_url url) && String.eqb (strip_md (wiki_url url)) url else true.
 
-  (* the line is written the same again: note links carry no `.md`, regular note links carry the
+  (* the line is written the same again: a note link is read back with the url it was written from
+     (`strip_md (ref_url url ext) = url`, which holds for the extensions `.md` and none:
+     RelPathFacts.strip_md_ref_url), regular note links carry the
      current title as their text; link texts and image texts hold no link *)
   Fixpoint calm (i : inline) {struct i} : bool :=
     match i with
@@ -154,8 +157,8 @@ Section Calm.
         | Regular =>
             written_autolink o url l ||
             (if is_ref_url url then
-               is_ref_url (url +++ refs_extension o) && String.eqb (trim_end_matches MD (url +++ refs_extension o)) url &&
-               match ctx (key_from_file_name url) with Some t => String.eqb (inlines_md o l) t | None => true end
+               is_ref_url (ref_url url (refs_extension o)) && String.eqb (strip_md (ref_url url (refs_extension o))) url &&
+               match ctx (key_name url) with Some t => String.eqb (inlines_md o l) t | None => true end
              else true)
         | _ => url_kept url
         end
@@ -190,20 +193,22 @@ Section Calm.
           -- apply andb_prop in H as [H H3]. apply andb_prop in H as [H1 H2]. apply String.eqb_eq in H2.
              cbn [to_ginline]. rewrite H1, H2. cbn [normalize_inline]. rewrite Er.
              cbn [inline_md]. rewrite Er. cbn [negb andb]. rewrite !inline_md_go.
-             destruct (ctx (key_from_file_name url)) as [ti|].
+             destruct (ctx (key_name url)) as [ti|].
              ++ apply String.eqb_eq in H3. unfold inlines_md at 1. cbn [map sconcat inline_md]. now rewrite sapp_nil_r, H3.
              ++ now rewrite Hc.
           -- cbn [to_ginline]. rewrite Er. cbn [normalize_inline]. rewrite Er. cbn [inline_md]. rewrite Er.
              rewrite !inline_md_go, Hc. reflexivity.
       + (* wiki *)
         cbn [rr_inline to_ginline map]. unfold url_kept in H. destruct (is_ref_url url) eqn:Er.
-        * apply String.eqb_eq in H. rewrite H. cbn [normalize_inline]. rewrite Er. reflexivity.
-        * cbn [normalize_inline]. rewrite Er. reflexivity.
+        * apply andb_prop in H as [H1 H]. apply String.eqb_eq in H. rewrite H1, H. cbn [normalize_inline]. rewrite Er. reflexivity.
+        * assert (W : wiki_url url = url) by (unfold wiki_url; now rewrite Er).
+          rewrite !W, Er. cbn [normalize_inline]. rewrite Er. cbn [inline_md]. now rewrite W.
       + (* piped *)
         cbn [rr_inline to_ginline]. unfold url_kept in H. destruct (is_ref_url url) eqn:Er.
-        * apply String.eqb_eq in H. rewrite H. cbn [normalize_inline]. rewrite Er. cbn [inline_md].
+        * apply andb_prop in H as [H1 H]. apply String.eqb_eq in H. rewrite H1, H. cbn [normalize_inline]. rewrite Er. cbn [inline_md].
           rewrite !inline_md_go, Hc. reflexivity.
-        * cbn [normalize_inline]. rewrite Er. cbn [inline_md]. rewrite !inline_md_go, Hc. reflexivity.
+        * assert (W : wiki_url url = url) by (unfold wiki_url; now rewrite Er).
+          rewrite !W, Er. cbn [normalize_inline]. rewrite Er. cbn [inline_md]. rewrite !inline_md_go, Hc. reflexivity.
     - (* image *)
       intros url t l _ H. cbn [calm] in H. unfold NG, G. cbn [rr_inline to_ginline normalize_inline inline_md].
       rewrite !inline_md_go, (nolink_children_md l H). reflexivity.
@@ -331,7 +336,8 @@ Section CalmBlocks.
 End CalmBlocks.
 
 (* BYTE-LEVEL FIXPOINT from structural hypotheses: the written blocks are in the class of the re-parse
-   specification; note links carry no `.md` and regular note links carry the current title ([calm]);
+   specification; note links are read back with the url they were written from (true for the extensions
+   `.md` and none) and regular note links carry the current title ([calm]);
    block references come back written the same.  Text runs in pieces, link titles, any heading walk of
    the source, any nesting: all allowed. *)
 Theorem fixpoint_text_calm ctx o key t tables :
@@ -344,8 +350,10 @@ Proof. intros Hs Hc. apply fixpoint_text_md; [exact Hs | now apply calm_md_settl
 Example ex_calm :
   forallb (gcalm ex_ctx (key_parent ex_key) ex_opts) ex_written = true /\
   forallb (gcalm ex_ctx "" ex_opts) [GPara [Str "a"; Str " "; Str "b"]; GPara [Link "http://x" "t" Regular [Str "y"]]] = true /\
-  (* a note link that still carries `.md` is not calm: its destination would be trimmed *)
-  gcalm ex_ctx "" (Opts "") (GPara [Str "see "; Link "a.md" "" Regular [Str "x"]]) = false.
+  (* a link to the note `a.md` (file `a.md.md`) is calm also where no extension is configured: it is written
+     `a.md.md` (ref_url) and read back as `a.md`; under an extension iwe does not read back, none is *)
+  gcalm ex_ctx "" (Opts "") (GPara [Str "see "; Link "a.md" "" Regular [Str "x"]]) = true /\
+  gcalm ex_ctx "" (Opts ".txt") (GPara [Str "see "; Link "a" "" Regular [Str "x"]]) = false.
 Proof. repeat split; vm_compute; reflexivity. Qed.
 
 Print Assumptions fixpoint_text_calm.
